@@ -78,6 +78,12 @@ def make_scenarios(rng, tier, focus, count):
                  "cachedTs": [0] * 5, "stale": [False] * 5, "again": False, "atLeast": False, "now": 1000, "lastTs0": 0}
             if rng.random() < 0.5:
                 g["par"][2], g["par"][3] = True, False
+            if rng.random() < 0.5:
+                # a, b, c parallel roots; s (sequential) depends on a; p (parallel) depends on b; staggered readiness
+                g = {"n": 6, "target": 6, "deps": [[], [], [], [1], [2], rng.sample([3, 4, 5], 3)],
+                     "kind": [kk(), kk(), kk(), kk(), kk(), "group"], "par": [True, True, True, False, True, False],
+                     "cachedTs": [0] * 6, "stale": [False] * 6, "again": False, "atLeast": False, "now": 1000, "lastTs0": 0}
+                n = 6
         jobs = rng.choice([1, 2, 2, 3] if focus != "slots" else [1, 2, 3, 3, 4])
         stop = (rng.random() < 0.5) if focus == "fail" else (rng.random() < 0.15)
         codes, fl = {}, []
